@@ -382,9 +382,9 @@ class StateMachine(object):  # pylint: disable=too-many-public-methods
         return States.STA_6
 
     def ae_8(self):
-        """Send A-ASSOCIATE-RJ PDU."""
-        # not sure about this ...
+        """Send A-ASSOCIATE-RJ PDU and start ARTIM timer."""
         self.dul_socket.sendall(self.primitive.encode())
+        self.timer.start()
         return States.STA_13
 
     def dt_1(self):
